@@ -107,6 +107,13 @@ class CaseMap(models.SDict):
                 return self.table[k]
         raise KeyError(x)
 
+    def get(self, x, default=None):
+        I = ctx().ghost["$interp"]
+        for k in sorted(self.table):
+            if I.truth(veq(x, k)):
+                return self.table[k]
+        return default
+
 
 class NameEncode(Contract):
     prop = "C20"
